@@ -85,14 +85,16 @@ def main():
     # ---- 2. demonstration in the agent's worktree
     demo = os.path.join(so, "demo.sh")
     if os.path.exists(demo):
+        # (git stash is shared between worktrees: revert / re-apply with the patch instead)
         rc1, o1 = sh("bash seed_out/demo.sh", cwd=wt, timeout=1800)
-        sh("git stash -q", cwd=wt)
+        pf = os.path.join(out, "patch.diff")
+        sh("git apply -R %s" % pf, cwd=wt)
         rc0, o0 = sh("bash seed_out/demo.sh", cwd=wt, timeout=1800)
-        sh("git stash pop -q", cwd=wt)
+        sh("git apply %s" % pf, cwd=wt)
         meta["demo_exit_with_change"] = rc1
         meta["demo_exit_without_change"] = rc0
         meta["demo_tail_with_change"] = o1[-600:]
-        meta["ran"].append("agent worktree: demo.sh with change -> exit %d; with the change stashed -> exit %d" % (rc1, rc0))
+        meta["ran"].append("agent worktree: demo.sh with change -> exit %d; with the patch reversed -> exit %d" % (rc1, rc0))
 
     # ---- 3. our checks against the change
     rc, o = sh("git -C %s status --porcelain --untracked-files=no" % REPO)
